@@ -1,0 +1,22 @@
+//go:build verif
+
+package server
+
+import "sync/atomic"
+
+// VerifYield is only compiled into verification builds (build tag `verif`). When a function is stored here it is called
+// at a few named points between critical sections so that a test harness can widen interleavings.
+var VerifYield atomic.Pointer[func(name string)]
+
+func verifPoint(name string) {
+	if f := VerifYield.Load(); f != nil {
+		(*f)(name)
+	}
+}
+
+// VerifConnAccounting returns how many connections server tracks at the moment and the value of connection counter.
+func (s *Server) VerifConnAccounting() (tracked int, counter int64) {
+	s.mu.RLock()
+	defer s.mu.RUnlock()
+	return len(s.activeConnections), s.activeConnectionCount.Load()
+}
